@@ -448,6 +448,52 @@ func runC11(c *Ctx) {
 		c.Check(len(w.usesOf(consumer, queue, false)) >= 1 && len(w.writesOf(consumer, queue, true)) == 0, r4, "getObsoleteTrackedItemsValues reads the deletion queue without consuming it", consumer.Decl.Pos(), "reads, does not write", "the consumer of the deletion queue no longer reads it (or clears it before phase 2 logs it)", nil)
 	}
 
+	r7 := c.Rule("R7", "a removed item's value blob is handed to deletion whatever its fetch state: in itemActionTracker.manage the removeAction case queues the item's id in forDeletionItems unconditionally (for stores whose values live in their own blobs the blob exists as soon as the item was added)", 2)
+	{
+		f := w.Fn("common.itemActionTracker.manage")
+		g := w.G(f)
+		c.Analysed(f)
+		info := f.Pkg.TypesInfo
+		queue := w.Field("common", "itemActionTracker", "forDeletionItems")
+		vnf := w.Field("btree", "Item", "ValueNeedsFetch")
+		// the append that sits in the removeAction case clause
+		var site *GNode
+		ast.Inspect(f.Body, func(x ast.Node) bool {
+			cc, ok := x.(*ast.CaseClause)
+			if !ok {
+				return true
+			}
+			isRemove := false
+			for _, e := range cc.List {
+				if id, ok := ast.Unparen(e).(*ast.Ident); ok && id.Name == "removeAction" {
+					isRemove = true
+				}
+			}
+			if !isRemove {
+				return true
+			}
+			for _, n := range g.Nodes {
+				if as, ok := n.Ast.(*ast.AssignStmt); ok && as.Pos() >= cc.Pos() && as.End() <= cc.End() && len(as.Lhs) == 1 && fieldOfSelector(info, as.Lhs[0]) == queue {
+					site = n
+				}
+			}
+			return true
+		})
+		c.Check(site != nil, r7, "manage(removeAction): queues the removed item's value blob", f.Decl.Pos(), "append to forDeletionItems present", "the remove case no longer queues the value blob for deletion", nil)
+		if site != nil {
+			guards := g.condNodes(func(e ast.Expr) bool { return fieldOfSelector(info, e) == vnf })
+			gated := false
+			for _, cn := range guards {
+				if len(g.ReachableWithout(edgeCut([]*GNode{cn}, 1), func(n *GNode) bool { return n == site })) == 0 {
+					gated = true
+				}
+			}
+			c.Check(!gated, r7, "manage(removeAction): the value blob is queued whatever the item's fetch state", site.Ast.Pos(), "unconditional",
+				"the removed item's blob is queued for deletion only while ValueNeedsFetch is set: an item whose slot holds its value inline (every item since it was added, or after its value was read) keeps its blob in the blob store for ever once the item is removed", nil)
+		}
+	}
+	r8 := c.Rule("R8", "the queue of replaced / removed value blobs survives until the post-commit cleanup: the getters phase1Commit calls to build log payloads do not clear it (shared with C07.R11)", 3)
+	payloadPurityRule(c, r8)
 	r6 := c.Rule("R6", "every step is announced before it acts: the live rollback decides from the announced step whether the PREVIOUS step's artifacts (staged blobs, reserved ids) must be removed (`committedState > previous`), so a step that is announced only after it succeeded makes its own failure skip the previous step's undo (shared with C08.R1)", 16)
 	logBeforeActRule(c, r6, logActSteps)
 	r5 := c.Rule("R5", "what an undo function must look up in the registry is recorded there before the data it leads to is written: rollbackUpdatedNodes finds the staged blobs through the inactive ids of the registry handles, so commitUpdatedNodes writes the reservation before (and only if it succeeded, then) the blobs (derived; shared with C03.R1 / C37.R2)", 3)
